@@ -57,6 +57,18 @@ type c04Cfg struct {
 	vb   ivg.ViewBox
 	pal  [64]color.RGBA
 	rect image.Rectangle
+	// given, when set, is the empty rectangle actually handed to SetRasterizer
+	// (no width, no height, corners the wrong way round); rect is then the zero
+	// rectangle: an empty target has no pixels, its raster height is 0
+	given *image.Rectangle
+}
+
+// target returns the rectangle to hand to SetRasterizer.
+func (cfg c04Cfg) target() image.Rectangle {
+	if cfg.given != nil {
+		return *cfg.given
+	}
+	return cfg.rect
 }
 
 func c04Config(r *run.Rng) c04Cfg {
@@ -78,9 +90,23 @@ func c04Config(r *run.Rng) c04Cfg {
 	}
 	w, h := r.Range(1, 100), r.Range(1, 600)
 	cfg.rect = image.Rect(0, 0, w, h).Add(image.Pt(r.Range(-30, 50), r.Range(-30, 50))) // origins of either sign
-	if r.Chance(1, 40) {
+	if r.Chance(1, 20) {
 		// an empty target rectangle: height 0 for the LOD test, nothing to scale to
-		cfg.rect = image.Rectangle{}
+		o := cfg.rect.Min
+		g := image.Rectangle{}
+		switch r.Intn(6) {
+		case 1:
+			g = image.Rectangle{Min: o, Max: o.Add(image.Pt(0, h))} // no width
+		case 2:
+			g = image.Rectangle{Min: o, Max: o.Add(image.Pt(w, 0))} // no height
+		case 3:
+			g = image.Rectangle{Min: o.Add(image.Pt(w, 0)), Max: o.Add(image.Pt(0, h))} // corners swapped in x
+		case 4:
+			g = image.Rectangle{Min: o.Add(image.Pt(0, h)), Max: o.Add(image.Pt(w, 0))} // corners swapped in y
+		case 5:
+			g = image.Rectangle{Min: o.Add(image.Pt(w, h)), Max: o}
+		}
+		cfg.given, cfg.rect = &g, image.Rectangle{}
 	}
 	return cfg
 }
@@ -205,6 +231,12 @@ func c04Program(c *run.Ctx, idx uint64) {
 	r := c.Rng(idx)
 	cfg := c04Config(r)
 	H := float32(cfg.rect.Dy())
+	if cfg.given != nil {
+		c.Count("empty_target_rectangles", 1)
+		if cfg.given.Dy() != 0 {
+			c.Count("empty_target_rectangles_with_a_height", 1)
+		}
+	}
 	regNum := func(r *run.Rng) float32 {
 		if r.Chance(1, 4) {
 			return float32(r.Intn(5)) / 4
@@ -221,6 +253,22 @@ func c04Program(c *run.Ctx, idx uint64) {
 			if op.K == rec.KSetLOD {
 				op.F[0] = float32(r.PickF(0, float64(H-1), float64(H), float64(H+1), math.Inf(-1), math.NaN(), float64(r.Intn(700))))
 				op.F[1] = float32(r.PickF(float64(H-1), float64(H), float64(H+1), math.Inf(1), math.Inf(1), math.Inf(1), math.NaN(), float64(r.Intn(700))))
+				if cfg.given != nil && cfg.given.Dy() != 0 && r.Bool() {
+					// bounds that tell the height 0 of an empty target from the
+					// distance between the two y coordinates it was described with
+					g := float32(cfg.given.Dy())
+					if g < 0 {
+						g = -g
+					}
+					switch r.Intn(3) {
+					case 0:
+						op.F[0], op.F[1] = 0, (g+1)/2
+					case 1:
+						op.F[0], op.F[1] = (g+1)/2, g+1
+					default:
+						op.F[0], op.F[1] = 1, float32(math.Inf(1))
+					}
+				}
 			}
 			ops = append(ops, op)
 		case k < 8:
@@ -246,7 +294,7 @@ func c04Program(c *run.Ctx, idx uint64) {
 	}
 	rz := &rec.Raster{}
 	var z render.Renderer
-	z.SetRasterizer(rz, cfg.rect)
+	z.SetRasterizer(rz, cfg.target())
 	if r.Bool() {
 		// The machine's initial state is established by Reset, not by the
 		// zero value: dirty every register first.
@@ -268,7 +316,7 @@ func c04Program(c *run.Ctx, idx uint64) {
 		// the rectangle (and with it the raster height of the LOD test) is
 		// set again after Reset, through another rasterizer object
 		z.SetRasterizer(&rec.Raster{}, image.Rect(0, 0, cfg.rect.Dx()+7, cfg.rect.Dy()+13))
-		z.SetRasterizer(rz, cfg.rect)
+		z.SetRasterizer(rz, cfg.target())
 		c.Count("rectangle_set_again_after_reset", 1)
 	case 1:
 		// the rasterizer object was used for something of another size before
@@ -508,7 +556,7 @@ func c04ViaDecoder(c *run.Ctx, idx uint64) {
 	c.Input(b)
 	rz := &rec.Raster{}
 	var z render.Renderer
-	z.SetRasterizer(rz, cfg.rect)
+	z.SetRasterizer(rz, cfg.target())
 	d := &rec.Dest{Tee: &z}
 	pal := cfg.pal
 	for i := range pal {
@@ -544,7 +592,7 @@ func c04Replay(c *run.Ctx, rz *rec.Raster, vm *ref.VM, cfg c04Cfg, ops []rec.Op,
 	// activity can be attributed call by call.
 	rz2 := &rec.Raster{}
 	var z2 render.Renderer
-	z2.SetRasterizer(rz2, cfg.rect)
+	z2.SetRasterizer(rz2, cfg.target())
 	z2.Reset(cfg.vb, cfg.pal)
 	if !c04Feed(c, &z2, rz2, vm, cfg, ops, "via-decoder") {
 		return
